@@ -140,7 +140,9 @@ def monitor(R, out, log, plan):
                     )
                     return
             if not pos_level:
-                clearly_closed = g < -tol_g
+                # closed according to the scheme's own documented rule, evaluated by the harness on the recorded
+                # midpoint: Moreau treats |g| <= 1e-8 as closed (well inside: 1e-9), DSV g <= 0
+                clearly_closed = (g <= 1e-9) if name == "Moreau" else (g <= 0.0)
                 if np.any(clearly_closed & (xiN < -tol_xi * vscale)):
                     i = int(np.argmax(clearly_closed & (xiN < -tol_xi * vscale)))
                     bad("signorini_complementarity", f"{name}/approach/{type(contacts[i]).__name__}", f"step {k}: closed contact {i} (gap {g[i]:.3e}) keeps approaching: restituted gap rate {xiN[i]:.3e}")
